@@ -112,3 +112,9 @@ func Ifaces() []net.Interface {
 	ifs, _ := net.Interfaces()
 	return ifs
 }
+
+// PrefixGate serialises hook H4's handler capture against every other prefix-handler call
+// in this process: the capture flag of prefix.VerifCapture is process-global, so while one
+// goroutine captures, no other goroutine may enter any prefix handler. Callers of prefix
+// handlers hold the read side; NewSys-style constructors hold the write side.
+var PrefixGate sync.RWMutex
